@@ -64,8 +64,11 @@ HEnd == handlers > 0 /\ handlers' = handlers - 1 /\ UNCHANGED <<smap, pendOps, c
 ErrorFor(first) == IF first \in {"g", "r", "0"} THEN 0 ELSE 1
 \* what a client saw on its connection: nReplies JSON documents (0 or 1 allowed), the error code of the reply;
 \* mustReply: the client sent a terminated request and waited, so a reply is due
-ClientSaw(first, nReplies, wellFormed, err, mustReply) ==
+\* closed: the client saw the server hang up (end of file) - also the client that sent nothing, or an incomplete
+\* request, and stalled past the server's receive timeout
+ClientSaw(first, nReplies, wellFormed, err, mustReply, closed) ==
   /\ nReplies \in {0, 1}
+  /\ closed
   /\ (mustReply => nReplies = 1)
   /\ (nReplies = 1 => wellFormed /\ err = ErrorFor(first))
   /\ UNCHANGED ssv
